@@ -18,6 +18,7 @@ from .file import File
 from .hash import FileHash, StepHash, fmt_full_digest
 from .nglob import NamedGlob, convert_nglob_to_regex
 from .outcome import ChildOutcome, ResourceUsage
+from .sqlite3 import prefix_clause
 from .static_tree import StaticTree
 from .stepinfo import StepInfo
 from .trellis import Node, NodeType
@@ -575,6 +576,17 @@ def truncate_output(content: str, max_bytes: int | None = None) -> str:
     return f"{truncated}\n[output truncated at {max_bytes} bytes]\n"
 
 
+# The files and static trees among the (recursive) products of a step.
+RECURSIVE_PRODUCT_PATHS = """
+WITH RECURSIVE products(i, kind, label) AS (
+    SELECT i, kind, label FROM node WHERE creator = ?
+    UNION
+    SELECT node.i, node.kind, node.label FROM node JOIN products ON node.creator = products.i
+)
+SELECT kind, label FROM products WHERE kind IN ('file', 'st')
+"""
+
+
 # When a step is detached or recycled, its creator chain changes, which alters the "safe" state
 # of the step and of every step it created (recursively): whether their (indirect) creator is in
 # a state that allows queuing them. Flag _check_safe (and _check_after) on the step and all its
@@ -851,7 +863,39 @@ class Step(Node):
         if old_out_paths != sorted(out_paths):
             return False
         old_vol_paths = sorted(r.path for r in self.vol_paths(dynamic=False))
-        return old_vol_paths == sorted(vol_paths)
+        if old_vol_paths != sorted(vol_paths):
+            return False
+        # A full recycle brings back everything this step created without declaring any of it again.
+        # That is only sound while none of it collides with what was declared in the meantime:
+        # a static tree is the sole owner of the paths under it, whichever came first.
+        # A step whose products collide is created afresh instead,
+        # so that it runs again and its declarations are checked like any others.
+        return not self._products_collide_with_static_trees()
+
+    def _products_collide_with_static_trees(self) -> bool:
+        """Whether reattaching the (recursive) products of this detached step would make
+        a static tree and a path declared by somebody else overlap.
+
+        Everything this step created is detached along with it,
+        so every attached node found here was declared by somebody else.
+        """
+        for kind, label in self.db.execute(RECURSIVE_PRODUCT_PATHS, (self.i,)):
+            # An attached static tree at or above this path.
+            # (`substr` compares byte for byte, like `Workflow._find_owning_static_tree`.)
+            row = self.db.execute(
+                "SELECT 1 FROM node WHERE kind = 'st' AND NOT detached "
+                "AND label = substr(?, 1, length(label))",
+                (label,),
+            ).fetchone()
+            if row is not None:
+                return True
+            if kind == StaticTree.kind():
+                # An attached file or static tree below the static tree that would come back.
+                clause, pattern = prefix_clause("label", label)
+                sql = f"SELECT 1 FROM node WHERE kind IN ('file', 'st') AND NOT detached AND {clause}"
+                if self.db.execute(sql, (pattern,)).fetchone() is not None:
+                    return True
+        return False
 
     def after_recycle(
         self,
